@@ -197,7 +197,7 @@ def write_for_run(
                     if var in spl:
                         line = line.replace(var, str(input_settings[var]))
                         # remove found item from dict
-                        not_found.pop(var)
+                        not_found.pop(var, None)
 
                 writefile.write(line)
     # check if we found all keys
